@@ -43,6 +43,10 @@ BAD: List[Tuple[str, Dict[str, str], Dict[str, str]]] = [
     ("a version that does not exist", {"X.1.0.dsdl": "B.0.3 n\n@sealed\n", "B.0.1.dsdl": "uint8 x\n@sealed\n"}, {}),
     ("the other minor version only", {"X.1.0.dsdl": "B.1.0 n\n@sealed\n", "B.0.1.dsdl": "uint8 x\n@sealed\n"}, {}),
     ("a sibling of another namespace only", {"sub/X.1.0.dsdl": "B.0.1 n\n@sealed\n", "B.0.1.dsdl": "uint8 x\n@sealed\n"}, {}),
+    ("a minor version beyond 255 (1.256 is not 2.0)", {"X.1.0.dsdl": "B.1.256 n\n@sealed\n", "B.2.0.dsdl": "uint8 x\n@sealed\n", "B.1.0.dsdl": "uint8 x\n@sealed\n"}, {}),
+    ("a minor version beyond 255 (0.257 is not 1.1)", {"X.1.0.dsdl": "B.0.257 n\n@sealed\n", "B.1.1.dsdl": "uint8 x\n@sealed\n"}, {}),
+    ("a major version beyond 255 (256.0 is not 0.0 / 1.0)", {"X.1.0.dsdl": "B.256.1 n\n@sealed\n", "B.0.1.dsdl": "uint8 x\n@sealed\n", "B.1.1.dsdl": "uint8 x\n@sealed\n"}, {}),
+    ("a version written with leading zeros of another number (1.00 is 1.0: accepted or rejected, never another definition)", {"X.1.0.dsdl": "B.1.010 n\n@sealed\n", "B.1.8.dsdl": "uint8 x\n@sealed\n", "B.1.0.dsdl": "uint8 x\n@sealed\n"}, {}),
     ("a reference to itself", {"X.1.0.dsdl": "X.1.0 me\n@sealed\n"}, {}),
     ("a reference to itself in an array", {"X.1.0.dsdl": "uint8 a\nns.X.1.0[<=2] me\n@sealed\n"}, {}),
     ("a cycle of two", {"X.1.0.dsdl": "Y.1.0 y\n@sealed\n", "Y.1.0.dsdl": "X.1.0 x\n@sealed\n"}, {}),
